@@ -69,7 +69,7 @@ def run_versions(ch):
     flagmode = ch.pick('flags', ['typical', 'all_ones', 'zero'])
     nameplace = ch.pick('name_offsets', ['middle', 'start', 'last'])
     nsym = ch.pick('versym_length', [6, 0, 1, 40])
-    hidden = ch.pick('versym_values', ['plain', 'hidden_bit', 'reserved'])
+    hidden = ch.pick('versym_values', ['plain', 'hidden_bit', 'reserved', 'index_plain_then_hidden'])
     ventsize = ch.pick('versym_entsize', [2])
     strlead = {'middle': b'\0pad\0', 'start': b'\0', 'last': b'\0' + b'x' * 300 + b'\0'}[nameplace]
     st = eg.StrTab(strlead)
@@ -137,6 +137,12 @@ def run_versions(ch):
             v |= 0x8000
         if hidden == 'reserved':
             v = (0, 1, 0xff00, 0xff01, 0xffff, 0x7fff)[i % 6]
+        if hidden == 'index_plain_then_hidden':
+            # two symbols carry the SAME version index, the second with the hidden bit (foo@@V and bar@V): the bit belongs to the symbol, not to the version
+            pool = [d['ndx'] & 0x7fff for d in defs if 2 <= (d['ndx'] & 0x7fff) < 0xff00] or [1]      # definitions only: these symbols are defined ones
+            v = pool[(i // 2) % len(pool)]
+            if i % 2 and v >= 2:
+                v |= 0x8000
         vvals.append(v)
     img.null()
     strsec = img.add(eg.Sec('.dynstr', 3, data=st.bytes(), flags=2, addr=0x410000))
